@@ -97,6 +97,7 @@ Target(c) ==
          [] c.ctx = "arg" -> FittingParam(et)
          [] c.ctx = "argmiss" -> Ptr(et)
          [] c.ctx = "argxp" -> Ptr(EndlessOf(ElemOf(StripPtr(F))))
+         [] c.ctx = "argcast" -> SPtr(ElemOf(StripPtr(F)))
          [] OTHER -> <<>>
 
 RVerdict(c) ==
@@ -130,6 +131,11 @@ RVerdict(c) ==
                   c530 == IF takes(c.k) /\ ~mut THEN {530} ELSE {}
                   all  == (IF a.ok THEN {} ELSE a.codes) \cup c530
               IN IF all = {} THEN Ok(et) ELSE Rej(all)
+         [] c.ctx = "argcast" ->
+              \* `callee(cast ref)` for `fn callee(q: &[]T)`, ref an array or an array view of T: a bit cast without `as` takes its
+              \* type from the parameter.  Nobody wrote `&`, so the callee must not get a pointer to the caller's elements
+              \* (eighth round of seeded changes); an array or a view is not a value a bit cast is defined for (E553)
+              Rej({553, 513, 512, 530, 531, 532})
          [] c.ctx = "argmiss" ->
               Rej({513} \cup (IF (takes(c.k + 1) /\ ~mut) \/ ofview(c.k + 1) \/ Kind(et) \in {"slice", "view"} THEN {512, 530} ELSE {}))
 
@@ -161,7 +167,7 @@ StepsAfterLastMember(taken) ==
             IN {taken[j] : j \in (m + 1)..Len(taken)}
 
 AVerdict(c, faithful) ==
-    CASE c.ctx = "argxp" ->       \* no separate model of the extern coercions: the model is the rule
+    CASE c.ctx \in {"argxp", "argcast"} ->       \* no separate model of the extern coercions / of bit casts: the model is the rule
            LET v == RVerdict(c)
            IN [out |-> (IF v.ok THEN "accept" ELSE "reject"), codes |-> v.codes, taken |-> <<>>]
       [] c.ctx = "assign" ->
